@@ -354,6 +354,9 @@ class Layout:
             if r < self.wild * 0.3:
                 emit(rnd.choice([" ", "  ", "\t", " \t ", "\r"]))
 
+        # the file may start with comment lines (an interpreter line among them): they are lines like any other
+        if rnd is not None and rnd.random() < 0.3:
+            emit(rnd.choice(["#!/usr/bin/env seed\n", "#! x\n", "# é 世\n\n", "\n", "#!\n#!/x\n", "#!/usr/bin/seed -x\r\n"]))
         prev = None
         at_line_start = True
         n = len(toks)
